@@ -357,7 +357,133 @@ class Repo(object):
         if val is None:
             raise AnalysisError('anchor %s.%s not assigned in %s'
                                 % (clsname, name, rel))
-        return val
+        return self.fold_text(rel, val, self.cls(rel, clsname))
+
+    # -- constant text ------------------------------------------------------
+    def _bound_once(self, rel, name, cls=None):
+        """The value expression of a module-level (or class-level) name that
+        is bound exactly once, by a plain assignment, and never declared
+        global in a function; None otherwise."""
+        tree = self.mod(rel).tree
+        found = []
+        scopes = [tree.body] + ([cls.body] if cls is not None else [])
+        for body in scopes:
+            for stmt in body:
+                for node in ast.walk(stmt) if not isinstance(
+                        stmt, (ast.FunctionDef, ast.ClassDef)) else [stmt]:
+                    if isinstance(node, ast.Assign):
+                        for t in node.targets:
+                            if isinstance(t, ast.Name) and t.id == name:
+                                found.append(node.value)
+                    elif isinstance(node, (ast.AugAssign, ast.AnnAssign)):
+                        t = node.target
+                        if isinstance(t, ast.Name) and t.id == name:
+                            found.append(None)
+                    elif isinstance(node, (ast.FunctionDef, ast.ClassDef,
+                                           ast.Import, ast.ImportFrom)):
+                        names = ([node.name] if hasattr(node, 'name') else
+                                 [(a.asname or a.name).split('.')[0]
+                                  for a in node.names])
+                        if name in names:
+                            found.append(None)
+        for node in ast.walk(tree):
+            if isinstance(node, ast.Global) and name in node.names:
+                return None
+        if len(found) == 1 and found[0] is not None:
+            return found[0]
+        return None
+
+    def _const_value(self, rel, node, cls, depth=0):
+        """Python value of an expression built only from literals and names
+        bound once to such expressions; raises ValueError otherwise."""
+        if depth > 6:
+            raise ValueError('too deep')
+        if isinstance(node, ast.Constant):
+            return node.value
+        if isinstance(node, ast.Name):
+            v = self._bound_once(rel, node.id, cls)
+            if v is None:
+                raise ValueError(node.id)
+            return self._const_value(rel, v, cls, depth + 1)
+        if isinstance(node, ast.Tuple):
+            return tuple(self._const_value(rel, e, cls, depth + 1)
+                         for e in node.elts)
+        if isinstance(node, ast.Dict):
+            if any(k is None for k in node.keys):
+                raise ValueError('**')
+            return dict((self._const_value(rel, k, cls, depth + 1),
+                         self._const_value(rel, v, cls, depth + 1))
+                        for k, v in zip(node.keys, node.values))
+        if isinstance(node, ast.UnaryOp) and isinstance(node.op, ast.USub):
+            v = self._const_value(rel, node.operand, cls, depth + 1)
+            if isinstance(v, (int, float)) and not isinstance(v, bool):
+                return -v
+            raise ValueError('neg')
+        if isinstance(node, ast.BinOp) and isinstance(node.op,
+                                                      (ast.Add, ast.Mod)):
+            a = self._const_value(rel, node.left, cls, depth + 1)
+            b = self._const_value(rel, node.right, cls, depth + 1)
+            if not isinstance(a, str):
+                raise ValueError('not text')
+            if isinstance(node.op, ast.Add):
+                if not isinstance(b, str):
+                    raise ValueError('not text')
+                return a + b
+            return a % b
+        if isinstance(node, ast.JoinedStr):
+            out = []
+            for part in node.values:
+                if isinstance(part, ast.Constant):
+                    out.append(part.value)
+                    continue
+                v = self._const_value(rel, part.value, cls, depth + 1)
+                spec = ''
+                if part.format_spec is not None:
+                    spec = self._const_value(rel, part.format_spec, cls,
+                                             depth + 1)
+                if part.conversion == ord('r'):
+                    v = repr(v)
+                elif part.conversion == ord('s'):
+                    v = str(v)
+                elif part.conversion == ord('a'):
+                    v = ascii(v)
+                out.append(format(v, spec))
+            return ''.join(out)
+        if (isinstance(node, ast.Call) and isinstance(node.func, ast.Attribute)
+                and node.func.attr == 'format'):
+            a = self._const_value(rel, node.func.value, cls, depth + 1)
+            if not isinstance(a, str):
+                raise ValueError('not text')
+            if any(isinstance(x, ast.Starred) for x in node.args) or any(
+                    k.arg is None for k in node.keywords):
+                raise ValueError('*')
+            args = [self._const_value(rel, x, cls, depth + 1)
+                    for x in node.args]
+            kw = dict((k.arg, self._const_value(rel, k.value, cls, depth + 1))
+                      for k in node.keywords)
+            return a.format(*args, **kw)
+        raise ValueError(type(node).__name__)
+
+    def fold_text(self, rel, node, cls=None):
+        """A text assembled from literals (`'..' % {'k': CONST}`, `+`,
+        `.format`, f-string over names bound once to literals) is the text: the
+        string constant it evaluates to, at the position of the expression.
+        Anything else is returned unchanged (the caller decides whether a
+        non-constant anchor is an analysis error)."""
+        if isinstance(node, ast.Constant) or not isinstance(
+                node, (ast.BinOp, ast.JoinedStr, ast.Call, ast.Name)):
+            return node
+        try:
+            v = self._const_value(rel, node, cls)
+        except (ValueError, TypeError, KeyError, IndexError):
+            return node
+        if not isinstance(v, str):
+            return node
+        new = ast.copy_location(ast.Constant(value=v), node)
+        for a in ('parent', 'rel'):
+            if hasattr(node, a):
+                setattr(new, a, getattr(node, a))
+        return new
 
     def classes(self):
         for m in self.all_mods():
